@@ -76,3 +76,10 @@ claim("C08", "other", "grammar-derived token facts, unordered-flow pairing check
       "in both argument slots exactly SymPy values with a non-parameter symbol are replaced by a freshly built RegRefTransform of that value (36 models per slot); only parameter-derived names ever enter the parameter table.",
       "Not decided: that SymPy's lambdify computes the expression (library).",
       "DESIGN.md 5/C08")
+
+claim("C03", "other", "grammar/ATN precedence table extraction + syntax-directed operator-term extraction of the evaluator with idiom normalisation + finite-model (value kind) evaluation of the division guard",
+      "Decides: the precedence/associativity table executed by the parser (grammar = ATN = generated code, and equals brackets > sign > ** right > */ > +-); one evaluator branch per grammar alternative; each branch's operator term "
+      "equals the specification on the evaluated children in grammar order with no casts (so integers stay integers); the 15 function tokens map to the like-named NumPy functions and the 4 literal kinds to their constructors "
+      "(tables derived from the grammar); true division is defined for every divisor kind (integer kinds are cast before the inverse); A[k] is row-major.",
+      "Not decided: accuracy within 1e-12 and overflow (library arithmetic, trusted).",
+      "DESIGN.md 5/C03")
